@@ -33,23 +33,53 @@ var cacheModes = []string{"none", "mem", "dirCold", "dirWarm", "shared"}
 
 type point struct {
 	Cache string `json:"cache"`
-	Bits  int    `json:"bits"` // bit0 capmax, 1 alloc, 2 nodebug, 3 custom, 4 listener, 5 cod
+	Bits  int    `json:"bits"` // bit0 capmax, 1 alloc, 2 nodebug, 3 custom, 4 listener (factory for every function), 5 cod
+	// LMode: the two further values of the listener dimension, "nil" (a factory that returns nil for every
+	// function) and "subset" (a listener for every other function); bit 4 is 0 in these points.
+	LMode string `json:"lmode,omitempty"`
 }
 
 func (pt point) settings(engine string, limit uint32) settings {
-	return settings{Engine: engine, Limit: limit,
+	s := settings{Engine: engine, Limit: limit,
 		CapMax: pt.Bits&1 != 0, Alloc: pt.Bits&2 != 0, NoDebug: pt.Bits&4 != 0,
 		Custom: pt.Bits&8 != 0, Listener: pt.Bits&16 != 0, COD: pt.Bits&32 != 0}
+	if pt.LMode != "" {
+		s.Listener, s.LMode = true, pt.LMode
+	}
+	return s
 }
 
-func allPoints() []point {
-	var ps []point
+// lattice is the list of points of the tier (set by initLattice): the full 5 x 2^6 product with the listener
+// dimension {no factory, listener for every function}, plus the listener values {nil for every function,
+// every other function} x cache {none, dirCold, dirWarm, shared} x the other five toggles (thorough: all 32
+// combinations; quick: none, each one alone, all five).
+var lattice []point
+
+func initLattice(thorough bool) {
+	lattice = nil
 	for _, c := range cacheModes {
 		for b := 0; b < 64; b++ {
-			ps = append(ps, point{c, b})
+			lattice = append(lattice, point{Cache: c, Bits: b})
 		}
 	}
-	return ps
+	for _, lm := range []string{"nil", "subset"} {
+		for _, c := range cacheModes {
+			if c == "mem" {
+				continue
+			}
+			for b := 0; b < 64; b++ {
+				if b&16 != 0 {
+					continue
+				}
+				rest := b & 47
+				single := rest != 0 && rest&(rest-1) == 0
+				if !thorough && !(rest == 0 || rest == 47 || single) {
+					continue
+				}
+				lattice = append(lattice, point{Cache: c, Bits: b, LMode: lm})
+			}
+		}
+	}
 }
 
 // cacheLE: partial order of the cache modes used for minimisation (none < mem < dirCold < dirWarm, mem < shared).
@@ -364,7 +394,7 @@ type latticeReplay struct {
 // latticeCase runs the whole lattice for one (engine, base limit, program). only >= 0 restricts it to one point.
 func (e *env) latticeCase(tier, engine string, limit uint32, p *program, only int) *caseResult {
 	res := &caseResult{}
-	base0 := point{"none", 0}
+	base0 := point{Cache: "none"}
 	baseRun := map[bool]*rtRun{}
 	baseline := func(cod bool) *rtRun {
 		if !p.TermSensitive {
@@ -386,8 +416,8 @@ func (e *env) latticeCase(tier, engine string, limit uint32, p *program, only in
 		res.CorpusEr = fmt.Sprintf("program %s does not compile at the baseline (%s, limit %d): %v", p.Name, engine, limit, b.tr)
 		return res
 	}
-	lstRefs := map[bool]string{} // listener events at (no cache, listener only [+cod for termination-sensitive programs])
-	pts := allPoints()
+	lstRefs := map[string]string{} // listener events at (no cache, that listener value only [+cod for termination-sensitive programs])
+	pts := lattice
 	type fail struct {
 		pt     point
 		key    string
@@ -432,14 +462,14 @@ func (e *env) latticeCase(tier, engine string, limit uint32, p *program, only in
 			}
 			if s.Listener {
 				lcod := s.COD && p.TermSensitive
-				lstRef, known := lstRefs[lcod]
+				lkey := fmt.Sprint(lcod, s.LMode)
+				lstRef, known := lstRefs[lkey]
 				if !known {
-					ls := (point{"none", 16}).settings(engine, limit)
-					ls.COD = lcod
+					ls := settings{Engine: engine, Limit: limit, Listener: true, LMode: s.LMode, COD: lcod}
 					lr := e.runPoint(p, ls, "none")[0]
 					res.Runs++
 					lstRef = lr.lstLine
-					lstRefs[lcod] = lstRef
+					lstRefs[lkey] = lstRef
 				}
 				if r.lstLine != lstRef && worst == "" {
 					worst, wdetail = "listener-events", fmt.Sprintf("runtime %d of the point: listener saw %s, alone without cache it sees %s", ri+1, r.lstLine, lstRef)
@@ -469,7 +499,7 @@ func (e *env) latticeCase(tier, engine string, limit uint32, p *program, only in
 	for _, f := range fails {
 		minimal := true
 		for _, g := range fails {
-			if g.pt != f.pt && g.key == f.key && g.pt.Bits&^f.pt.Bits == 0 && cacheLE(g.pt.Cache, f.pt.Cache) {
+			if g.pt != f.pt && g.key == f.key && g.pt.LMode == f.pt.LMode && g.pt.Bits&^f.pt.Bits == 0 && cacheLE(g.pt.Cache, f.pt.Cache) {
 				minimal = false
 				break
 			}
@@ -1001,7 +1031,7 @@ func (e *env) runCase(tier string, corpus []*program, c caseDesc, only int) *cas
 
 func caseSize(c caseDesc, p *program, thorough bool) int {
 	if c.Kind == "lattice" {
-		return len(allPoints())
+		return len(lattice)
 	}
 	return len(enumScenarios(c.Cache, scenLevel(p, thorough)))
 }
@@ -1019,6 +1049,7 @@ func main() {
 		quickNames[p.Name] = true
 	}
 	corpus := buildCorpus(thorough)
+	initLattice(thorough)
 	cases := buildCases(corpus, thorough)
 
 	if fw.IsChild() {
@@ -1154,7 +1185,7 @@ func main() {
 				var rp any
 				var cls string
 				if c.Kind == "lattice" {
-					pt := allPoints()[j]
+					pt := lattice[j]
 					s := pt.settings(c.Engine, c.Limit)
 					cls = fmt.Sprintf("lattice:cache=%s:toggles=%s", pt.Cache, s.toggles())
 					what = fmt.Sprintf("program %s, limit %d, cache=%s toggles=[%s]", corpus[c.Prog].Name, s.limit(), pt.Cache, s.toggles())
@@ -1208,7 +1239,7 @@ func main() {
 			continue
 		}
 		if c.Kind == "lattice" {
-			samples.Add(map[string]any{"kind": "lattice", "engine": c.Engine, "limit_pages": c.Limit, "program": corpus[c.Prog].Name, "points": 320})
+			samples.Add(map[string]any{"kind": "lattice", "engine": c.Engine, "limit_pages": c.Limit, "program": corpus[c.Prog].Name, "points": len(lattice)})
 		} else {
 			samples.Add(map[string]any{"kind": "orders", "engine": c.Engine, "program": corpus[c.Prog].Name, "cache": c.Cache, "scenarios": caseSize(c, corpus[c.Prog], thorough)})
 		}
@@ -1294,7 +1325,7 @@ func main() {
 		Samples: samples.List(), Exhaustive: true, Outcomes: outcomes.Map(),
 		Bounds: map[string]any{
 			"programs": len(corpus), "programs_per_family": families, "programs_in_order_scenarios": nOrder,
-			"lattice_points": len(allPoints()), "cache_modes": cacheModes, "toggles": []string{"capmax", "alloc", "nodebug", "custom", "listener", "cod"},
+			"lattice_points": len(lattice), "listener_values": []string{"no factory", "listener for every function (host functions included)", "nil for every function", "every other function"}, "cache_modes": cacheModes, "toggles": []string{"capmax", "alloc", "nodebug", "custom", "listener", "cod"},
 			"semantic_bases":           []string{fmt.Sprintf("WithMemoryLimitPages(%d): all programs", smallLimit), "default limit (65536): programs with a memory"},
 			"order_settings":           map[string]string{"D": "default", "T": "WithCloseOnContextDone(true)", "L": "function listener", "N": "WithDebugInfoEnabled(false)", "M": "WithMemoryLimitPages(2)", "F": "WithCoreFeatures(V1)", "C": "WithMemoryCapacityFromMax(true)", "A": "custom MemoryAllocator"},
 			"order_tuples":             len(tuples()),
@@ -1346,6 +1377,7 @@ func replay(file string) {
 		quickNames[p.Name] = true
 	}
 	corpus := buildCorpus(kind.Tier == "thorough")
+	initLattice(kind.Tier == "thorough")
 	var p *program
 	for _, q := range corpus {
 		if q.Name == kind.Program {
@@ -1375,7 +1407,7 @@ func replay(file string) {
 		var r latticeReplay
 		json.Unmarshal(doc.Replay, &r)
 		s := r.Point.settings(r.Engine, r.Limit)
-		bs := (point{"none", 0}).settings(r.Engine, r.Limit)
+		bs := (point{Cache: "none"}).settings(r.Engine, r.Limit)
 		if p.TermSensitive {
 			bs.COD = s.COD
 		}
@@ -1383,7 +1415,7 @@ func replay(file string) {
 		show("baseline", base.tr)
 		var lref string
 		if s.Listener {
-			lref = e.runPoint(p, (point{"none", 16}).settings(r.Engine, r.Limit), "none")[0].lstLine
+			lref = e.runPoint(p, settings{Engine: r.Engine, Limit: r.Limit, Listener: true, LMode: s.LMode, COD: s.COD && p.TermSensitive}, "none")[0].lstLine
 		}
 		for i, run := range e.runPoint(p, s, r.Point.Cache) {
 			k, d := diffTraces(base.tr, run.tr)
